@@ -355,4 +355,10 @@ func runC19(c *fw.Ctx) {
 		}
 	}
 	c.Extra("enumeration_wall_s", time.Since(start).Seconds())
+	// the stores are also used concurrently: writers on distinct keys and readers (Match, Iterate, Count,
+	// Walk) on all, also on stores rebuilt by Load. Same workload as C20's, here without the race
+	// detector: lost updates, wrong counts and runtime map-access faults still show.
+	for r := 0; r < c.Pick(8, 60); r++ {
+		c20Tries(c, 700+r)
+	}
 }
